@@ -12,9 +12,9 @@ import json, os, re
 import vcommon as V
 
 META = dict(
-    text="(filled in below)",
-    note="(filled in below)",
-    technique="Lean 4 proof over executable front-end and VM models with explicit panic-capable primitives + decide over a regenerated panic-site inventory + crash search through every script-facing entry point of the real code",
+    text="Lean 4 + regenerated inventory + crash search through every script-facing entry point. T1: on every run the extractor rebuilds from the Go source the set of functions reachable from EvalString/LoadString/LoadExpressions/Run/EvalExpressions/ParseTokens/ParsingIter/the REPL line reader/every SexpString method WITHOUT crossing a deferred recover(), with the index, slice, unchecked-type-assertion, explicit-panic, division and map-write operations each holds; `inventory_classified` (decide over the whole table) requires each to be classified as sites/behaviour/residual, so a new unrecovered function with a panic-capable operation breaks the proof; `stack_pushes_typed` fixes what is pushed on which VM stack. Proved for all inputs: the `{` look-ahead never indexes the token queue out of range (every parser state, distance, continuation); the index/slice expressions of dumpBuffer/DecodeAtom/DecodeChar are in range for every buffer; the argument prologues of 21 special-form generators (incl. buildSexpFun) never index outside their argument list, for every argument list and any non-panicking sub-generator (Go int arithmetic modelled in Int, so args[size-1] with size=0 is a panic: pre-repair (and) and (mdef (hash) ..) are proved counterexamples); the VM's typed pops, call prologue, scope/stack-mark pops and symbol binding keep the stacks free of nil cells and do not panic on such stacks. T2: channel `crash` feeds the real EvalString(+SexpString), LoadString+Run, ParseTokens chunk API, EvalExpressions, macexpand, the REPL line reader in-process and the real Repl() in a child process with every string over a 26-symbol token alphabet up to length 3 (thorough 4), mutations of tests/*.zy, every special form/reserved word/bound name of three configurations x 0..3 assorted arguments in 26 contexts, value pairs through binding/container/printing templates, infix token sequences and 380 regression texts; any Go panic, nil value with nil error or process death is a failing input with replay. The Lean front-end model is compared on the status of every ParseTokens call (hash per enumeration range), the prologue model on which argument lists LoadString must refuse, the VM model on the outcome class of every `eval` text. A unit test feeds a few dozen malformed inputs; the theorems cover every input of the modelled sites and the table covers every function of the current tree.",
+    note="Partial. Proved on site models, not on a translation of the Go code: Model/GenSites, Model/FrontSites and the parser's peekAt are hand-written after the code and tied behaviourally (P: and G: columns, crash search). The full VM statement C01NoPanic is stated, not proved: missing are the induction over the mutually recursive interpreter functions and the stack balance of generated code (restoreControlState only truncates, binds never meet an empty scope stack) — `restore_can_pad` shows the latent TruncateToSize padding path; both are held by the eval/crash correspondence. 67 functions of the unrecovered region are residual (printing of exotic values, hash/selector helpers, REPL glue, syntax-quote generators): crash search only. Runtime resources are outside the claim: Go stack exhaustion (infinite macro expansion, a self-containing value given to ==/json/Type(), deep non-tail recursion) kills the process and cannot be recovered; the harness bounds each text by a 20000-call budget and a 2 s watchdog and classifies what does not return as `hang` without reporting it. Names that reach outside the process are on a deny list and are never executed. Trusted: Lean kernel (propext, Classical.choice, Quot.sound), the extractor's call graph (calls only; function values by signature), harness, driver.",
+    technique="Lean 4 proof over executable front-end, generator-prologue and VM-primitive models with explicit panic-capable primitives + decide over a regenerated panic-site inventory + crash search through every script-facing entry point of the real code",
     design_ref="DESIGN.md §7 C01, §13",
 )
 
@@ -113,25 +113,23 @@ def split_enum(rep, op, impl):
 
 
 def shrink_repl(op, impl):
-    """a REPL batch that killed the child: find a single line (or the shortest prefix) that does"""
+    """a REPL batch that killed the child: the first single line that does it alone, else the
+    shortest prefix of the batch that does"""
     t = op.split(" ")
-    d = decode_op(op)
-    lines = d.get("text", "").split("\n")
-    def dies(ls):
+    lines = decode_op(op).get("text", "").split("\n")
+    def run(ls):
         o = "crash r %s %s" % (t[2], ".".join(str(ord(c)) for c in "\n".join(ls)) or "-")
         a = V.exec_impl(o + "\n", timeout=120)
-        return a and BAD.search(a[0]) is not None, o, (a[0] if a else "")
+        ans = a[0] if a else ""
+        return BAD.search(ans) is not None, o, ans
     for l in lines:
-        bad, o, a = dies([l])
+        bad, o, a = run([l])
         if bad:
             return o, a
-    lo = lines
-    while len(lo) > 1:
-        half = lo[:len(lo) // 2]
-        bad, o, a = dies(half)
-        lo = half if bad else lo[:len(lo) // 2 + (len(lo) - len(lo) // 2 + 1) // 2] if len(lo) > 2 else lo
-        if not bad:
-            break
+    for n in range(2, len(lines)):
+        bad, o, a = run(lines[:n])
+        if bad:
+            return o, a
     return op, impl
 
 
@@ -151,6 +149,28 @@ def judge_eval(rows):
             out.append((op, " ".join(icls), " ".join(mcls), "-"))
         else:
             out.append((op, " ".join(icls), " ".join(icls), " ".join(icls)))
+    return out
+
+
+def inventory_by_cover():
+    """joins the regenerated table (Generated/PanicSites.lean) with the committed classification
+    (Props/C01.lean `Classified`): site counts per cover class, and the residual functions with
+    their counts"""
+    gen = open(os.path.join(V.LEAN, "ZygoVerif", "Generated", "PanicSites.lean")).read()
+    props = open(os.path.join(V.LEAN, "ZygoVerif", "Props", "C01.lean")).read()
+    cover = dict(re.findall(r'\("([^"]+)", \.(\w+)\)', props))
+    kinds = ["index", "slice", "assert", "explicit", "div", "mapwrite"]
+    out = {"sites": {"functions": 0}, "behaviour": {"functions": 0}, "residual": {"functions": 0}, "unclassified": {"functions": 0}}
+    residual = {}
+    for m in re.finditer(r'⟨"([^"]+)", "([^"]+)", (\d+), (\d+), (\d+), (\d+), (\d+), (\d+)⟩', gen):
+        name, counts = m.group(1), [int(x) for x in m.groups()[2:]]
+        c = cover.get(name, "unclassified")
+        out[c]["functions"] += 1
+        for k, n in zip(kinds, counts):
+            out[c][k] = out[c].get(k, 0) + n
+        if c in ("residual", "unclassified"):
+            residual[name] = {k: n for k, n in zip(kinds, counts) if n}
+    out["residual_functions"] = residual
     return out
 
 
@@ -176,6 +196,7 @@ def run(rep):
             facts = json.load(f)
         if "panicsites" in facts:
             rep.coverage["inventory"] = facts["panicsites"]
+        rep.coverage["inventory_by_cover"] = inventory_by_cover()
     except Exception:
         pass
     if not (prep["ok_drv"] and prep["ok_harness"]):
